@@ -214,6 +214,38 @@ func writeReplay(prop, tier string, f Found) string {
 	return path
 }
 
+// runScenario explores one xplor scenario at the given bound and merges the result into rep.
+func runScenario(c *Check, rc *RunCtx, rep *Report, s Scenario, bound int) {
+	scn := s
+	ex := &xplor.Explorer{Bound: bound, Workers: rc.Workers, Scenario: scn.Fn, Deadline: rc.Deadline}
+	res := ex.Explore()
+	rep.Executions += res.Executions
+	rep.Skipped += res.Skipped
+	rep.Bounds[s.Name] = bound
+	for k := range res.Nontrivial {
+		rep.nontrivialHashed[k^xplor.HashKey(s.Name)] = struct{}{}
+	}
+	for k, v := range res.Outcomes {
+		rep.Outcomes[k] += v
+	}
+	for k, v := range res.Notes {
+		rep.Notes[k] += v
+	}
+	for _, sm := range res.Samples {
+		sm["scenario"] = s.Name
+		rep.Samples = append(rep.Samples, sm)
+	}
+	for _, v := range res.Violations {
+		rep.Violations = append(rep.Violations, Found{Scenario: s.Name, V: v})
+	}
+	if !res.Exhaustive {
+		rep.Exhaustive = false
+	}
+	if rc.Verbose {
+		fmt.Fprintf(os.Stderr, "[%s/%s] bound=%d executions=%d skipped=%d violations=%d wall=%s\n", c.ID, s.Name, bound, res.Executions, res.Skipped, res.NViolations, res.Wall.Round(time.Millisecond))
+	}
+}
+
 // RunCheck executes a check and returns the process exit code.
 func RunCheck(c *Check, rc *RunCtx) int {
 	start := time.Now()
@@ -230,34 +262,7 @@ func RunCheck(c *Check, rc *RunCtx) int {
 		if bound < 0 {
 			continue // scenario not part of this tier
 		}
-		scn := s
-		ex := &xplor.Explorer{Bound: bound, Workers: rc.Workers, Scenario: scn.Fn, Deadline: rc.Deadline}
-		res := ex.Explore()
-		rep.Executions += res.Executions
-		rep.Skipped += res.Skipped
-		rep.Bounds[s.Name] = bound
-		for k := range res.Nontrivial {
-			rep.nontrivialHashed[k^xplor.HashKey(s.Name)] = struct{}{}
-		}
-		for k, v := range res.Outcomes {
-			rep.Outcomes[k] += v
-		}
-		for k, v := range res.Notes {
-			rep.Notes[k] += v
-		}
-		for _, sm := range res.Samples {
-			sm["scenario"] = s.Name
-			rep.Samples = append(rep.Samples, sm)
-		}
-		for _, v := range res.Violations {
-			rep.Violations = append(rep.Violations, Found{Scenario: s.Name, V: v})
-		}
-		if !res.Exhaustive {
-			rep.Exhaustive = false
-		}
-		if rc.Verbose {
-			fmt.Fprintf(os.Stderr, "[%s/%s] bound=%d executions=%d skipped=%d violations=%d wall=%s\n", c.ID, s.Name, bound, res.Executions, res.Skipped, res.NViolations, res.Wall.Round(time.Millisecond))
-		}
+		runScenario(c, rc, rep, s, bound)
 	}
 	if c.Custom != nil && (rc.Only == "" || rc.Only == "custom") {
 		switch {
